@@ -1444,6 +1444,7 @@ func (w *envelopingWriter) handleEnvelopeWritten() error {
 	if err != nil {
 		err = malformedRequestError(err)
 		w.rw.reportError(err)
+		w.err = err
 		return err
 	}
 	if env.trailer {
@@ -1451,6 +1452,7 @@ func (w *envelopingWriter) handleEnvelopeWritten() error {
 		if limit := w.rw.op.methodConf.maxMsgBufferBytes; env.length > limit {
 			err := bufferLimitError(int64(limit))
 			w.rw.reportError(err)
+			w.err = err
 			return err
 		}
 		buf := w.rw.op.bufferPool.Get()
